@@ -267,6 +267,10 @@ def spec_problems(case, res, inv_answers):
         if step["raised"] and edges_part(st) != edges_part(prev):
             bad.append((i, "raise-changed", "the operation raised %s but changed max_lag or an edge set: %s -> %s"
                         % (step.get("exc"), prev, st)))
+        if op[0] == "cp" and step["raised"]:
+            # no class raises in copy() on a state reached inside the calling convention (theorems C13_copy_classes,
+            # C13_copy_cpdag)
+            bad.append((i, "copy-raised", "copy() raised %s on %s" % (step.get("exc"), prev)))
         if op[0] == "cp" and not step["raised"]:
             if not step.get("copy_class_ok", True):
                 bad.append((i, "copy-class", "copy() is not of the same class"))
